@@ -386,6 +386,8 @@ def _run(case, clock, versioning):
 def check_case(case):
     if case.get("kind") == "nonversionable":
         return check_nonversionable(case)
+    if case.get("kind") == "partial":
+        return check_partial(case)
     return run_case(case)[0]
 
 
@@ -430,6 +432,96 @@ def check_nonversionable(case):
             fails.append(("crash:%s" % type(exc).__name__, core.fmt_exc(exc)))
         if ser(x) != before:
             fails.append(("original-modified", "refused operation changed its input"))
+        return fails
+    finally:
+        clock.restore()
+
+
+# ---- objects that carry only some of created / modified / revoked --------------------------------------------------
+# (plain dicts of registered and unregistered types, custom classes whose versioning properties are optional: the library
+# supports versioning them -- repo tests test_versioning_dict_unregistered_no_modified, test_versioning_custom_object)
+
+PARTIAL_OPS = ["new_version", "new_version-no-change", "revoke", "add_markings", "set_markings", "clear_markings", "remove_markings", "granular-add"]
+
+
+def _partial_class():
+    import stix2
+    from stix2 import properties as P, registry
+    cls = registry.class_for_type("x-verif-c05partial", "2.1", "objects")
+    if cls is None:
+        @stix2.v21.CustomObject("x-verif-c05partial", [("name", P.StringProperty()), ("created", P.TimestampProperty()), ("modified", P.TimestampProperty()),
+                                                         ("revoked", P.BooleanProperty()), ("object_marking_refs", P.ListProperty(P.ReferenceProperty(valid_types="marking-definition", spec_version="2.1"))),
+                                                         ("granular_markings", P.ListProperty(stix2.v21.GranularMarking))])
+        class Partial(object):
+            pass
+        cls = Partial
+    return cls
+
+
+def partial_cases():
+    cases = []
+    for holder in ("dict-registered-2.1", "dict-registered-2.0", "dict-unregistered", "custom-class"):
+        for present in (("created",), ("created", "modified"), ("created", "revoked"), ("created", "modified", "revoked")):
+            for revoked in ((False, True) if "revoked" in present else (False,)):
+                for op in PARTIAL_OPS:
+                    cases.append({"kind": "partial", "holder": holder, "present": list(present), "revoked": revoked, "op": op})
+    return cases
+
+
+def check_partial(case):
+    from stix2 import markings, versioning
+    clock = Clock()
+    try:
+        clock.set(tsref.instant(2021, 6, 1))
+        doc = {"name": "n", "created": "2020-01-01T00:00:00.000Z"}
+        if "modified" in case["present"]:
+            doc["modified"] = "2020-02-01T00:00:00.000Z"
+        if "revoked" in case["present"]:
+            doc["revoked"] = case["revoked"]
+        if case["op"] in ("clear_markings", "remove_markings"):
+            doc["object_marking_refs"] = [S.MARKING_IDS[1]]
+        h = case["holder"]
+        if h == "custom-class":
+            x, exc = core.guarded(_partial_class(), **doc)
+            if exc is not None:
+                raise core.HarnessError("custom class refused %s: %s" % (doc, core.fmt_exc(exc)))
+        else:
+            t = "x-verif-unreg" if h == "dict-unregistered" else "campaign"
+            x = dict(doc, type=t, id="%s--%s" % (t, S.uid(0x5c)))
+            if not h.endswith("2.0"):
+                x["spec_version"] = "2.1"
+        before = ser(x)
+        op = case["op"]
+        if op == "new_version":
+            r, exc = core.guarded(versioning.new_version, x, name="m")
+        elif op == "new_version-no-change":
+            r, exc = core.guarded(versioning.new_version, x)
+        elif op == "revoke":
+            r, exc = core.guarded(versioning.revoke, x)
+        elif op == "granular-add":
+            r, exc = core.guarded(markings.add_markings, x, S.MARKING_IDS[2], ["name"])
+        elif op == "clear_markings":
+            r, exc = core.guarded(markings.clear_markings, x)
+        else:
+            r, exc = core.guarded(getattr(markings, op), x, S.MARKING_IDS[1])
+        fails = []
+        if exc is not None and not _stix_error(exc):
+            fails.append(("crash:%s" % type(exc).__name__, "%s at %s" % (core.fmt_exc(exc), core.lib_frame(exc))))
+        elif case["revoked"]:
+            if exc is None:
+                fails.append(("revoked-object-revoked-again" if op == "revoke" else "revoked-object-versioned",
+                              "%s on a revoked %s carrying only %s returned %s" % (op, h, case["present"], core.short(ser(r), 300))))
+        elif exc is None:
+            d = ser(r)
+            if "modified" not in d or tsref.parse(d["modified"])[0] <= tsref.parse(before.get("modified", before["created"]))[0]:
+                fails.append(("partial-version-not-newer", "%s on %s carrying %s: modified %r (before %r, created %r)" % (
+                    op, h, case["present"], d.get("modified"), before.get("modified"), before["created"])))
+            if d.get("created") != before["created"] or d.get("id") != before["id"]:
+                fails.append(("partial-version-identity-changed", "id/created changed: %s" % core.short(d, 300)))
+            if op == "revoke" and d.get("revoked") is not True:
+                fails.append(("revoke-did-not-revoke", core.short(d, 300)))
+        if ser(x) != before:
+            fails.append(("original-modified", "the operation changed its input"))
         return fails
     finally:
         clock.restore()
@@ -540,7 +632,7 @@ def run(ctx):
                 "carrying custom created/modified/revoked; as library object or plain dict; created in years 1000-9990): up to %d operations "
                 "(new_version with 1-3 legal property changes incl. None removals, custom properties with allow_custom True/None/False, "
                 "caller-supplied modified, both also handed over through the custom_properties= keyword, attempts on id/type/created/created_by_ref and id-contributing SCO properties, revoke and "
-                "operations after it, object-level and granular marking calls, serialize->parse, in-place edit of a result dict); the "
+                "operations after it (plus an enumeration of holders that carry only some of created/modified/revoked -- dicts of registered and unregistered types, a custom class -- x revoked or not x every operation), object-level and granular marking calls, serialize->parse, in-place edit of a result dict); the "
                 "library clock is set before every operation to previous modified + d with d drawn from earlier (1us..500y) / equal / "
                 "+1..999us / +1ms / later.  Non-trivial = chain of >= 3 versions in which at least one step had a clock reading that is "
                 "not later than the previous modified after serialization (earlier, equal or inside the precision window); distinct = "
@@ -555,6 +647,10 @@ def run(ctx):
     for c in nonversionable_cases():
         ctx.note(c, False, ["nonversionable:" + c["label"], "nonversionable-op:" + c["op"]])
         ctx.handle(c, check_nonversionable(c))
+    for c in partial_cases():
+        ctx.note(c, c["revoked"] or "modified" not in c["present"], ["partial:%s:%s" % (c["holder"], "+".join(c["present"])), "partial-op:" + c["op"]] +
+                 (["partial:revoked-without-modified"] if c["revoked"] and "modified" not in c["present"] else []))
+        ctx.handle(c, check_partial(c))
     ctx.collect_only = False
 
     def body(case):
